@@ -23,11 +23,12 @@ def hash160(b):
     return ripemd160(sha256(b))
 
 
-_HMAC_NEW = _hmac.new      # saved: the PRF seam of vf/answers.py temporarily replaces hmac.new for the code under test
+_HMAC_NEW = _hmac.new      # saved: the PRF seam of vf/answers.py replaces hmac.new / hmac.digest for the code under test
+_HMAC_DIGEST = _hmac.digest
 
 
 def hmac_sha512(key, msg):
-    return _HMAC_NEW(key, msg, hashlib.sha512).digest()
+    return _HMAC_DIGEST(key, msg, "sha512")
 
 
 # ----------------------------------------------------------------------------- Base58
